@@ -9,10 +9,15 @@ import z3
 from . import ops
 from .ops import bterm, kind, rterm, term, to_sfloat, wrap_bool, wrap_int, wrap_real
 from .path import PathEnd, Unsupported
-from .values import (FIN, NAN, NINF, PINF, UNDEF, AnyV, BoundV, ClassV, DequeV, EnumMap, EnumSet, EnumVal,
+from .values import (OpaqueArgs, FIN, NAN, NINF, PINF, UNDEF, AnyV, BoundV, ClassV, DequeV, EnumMap, EnumSet, EnumVal,
                      EnvFn, ExtV, FuncV, LambdaV, LockV, ModuleV, Obj, Ref, SFloat, SOpt, Sym, TimeDelta,
                      fresh_name, PySet, GenExp, MethodRef, Absentable, SeqV)
 
+
+# IEEE-754 binary64 facts of the host platform (CPython's float): exact Python values
+EXT_CONSTANTS = {"sys.float_info.max_exp": 1024, "sys.float_info.min_exp": -1021, "sys.float_info.max": 1.7976931348623157e308,
+                 "sys.float_info.mant_dig": 53, "sys.float_info.max_10_exp": 308, "sys.float_info.epsilon": 2.220446049250313e-16,
+                 "sys.maxsize": 2 ** 63 - 1}
 
 class PyRaise(Exception):
     def __init__(self, exc, cause=UNDEF, node=None):
@@ -817,6 +822,8 @@ class ExprMixin:
             h = self.attr_models.get(attr)
             if h is not None:
                 return h(self, obj, attr, node)
+            if attr == "args" and obj.cls is None and obj.cls_t is not None:
+                return OpaqueArgs(obj)
             if default is not UNDEF:
                 return default
             raise Unsupported(f"attribute {attr} of {obj!r}")
@@ -863,7 +870,10 @@ class ExprMixin:
                 return self.value_of_resolution(r)
             return ExtV(f"{obj.name}.{attr}")
         if isinstance(obj, ExtV):
-            return ExtV(f"{obj.name}.{attr}")
+            full = f"{obj.name}.{attr}"
+            if full in EXT_CONSTANTS:
+                return EXT_CONSTANTS[full]
+            return ExtV(full)
         if isinstance(obj, TimeDelta):
             if attr == "total_seconds":
                 return MethodRef(obj, attr)
